@@ -273,3 +273,83 @@ pub fn pairs(ctx: &mut Ctx) {
         }
     }
 }
+
+
+fn random_kind<K: BoolKind>(ctx: &mut Ctx, rng: &mut crate::rng::Rng, cases: usize)
+where
+    for<'id> MgrOf<'id, K>: HasWorkers,
+    for<'x> INodeOfFunc<'x, K::F>: HasLevel,
+{
+    use oxidd::WorkerPool;
+    let k = K::NAME;
+    for _ in 0..cases {
+        let n = rng.range(4, 8) as u32;
+        let threads = *rng.pick(&[1u32, 1, 2, 4, 8]);
+        let mref = setup::<K>(1 << 16, 1 << rng.range(0, 12), threads, n);
+        // every split depth: 0 (sequential), 1, 2, MAX
+        let depth = *rng.pick(&[0u32, 1, 2, u32::MAX]);
+        mref.with_manager_shared(|m| m.workers().set_split_depth(Some(depth)));
+        let order = rng.perm(n as usize);
+        set_order(&mref, &order);
+        let fs: Vec<(K::F, Tt)> = (0..8)
+            .map(|i| {
+                let t = if i % 2 == 0 { Tt::random(n, rng) } else { Tt::random_biased(n, rng) };
+                (build_shannon::<K>(&mref, &t), t)
+            })
+            .collect();
+        for (f, t) in &fs {
+            ctx.eval();
+            let et = eval_tt::<K>(f);
+            let it = interp_tt::<K>(f);
+            if et != *t || it != *t {
+                ctx.violation(&format!("{k}:random:build-eval-interp"), format!("order {order:?}: table {t} eval {et} interp {it}"));
+            }
+        }
+        for _ in 0..40 {
+            let (f, ft) = rng.pick(&fs);
+            let (g, gt) = rng.pick(&fs);
+            let (h, ht) = rng.pick(&fs);
+            let (r, want, what) = if rng.chance(1, 4) {
+                (f.ite(g, h).unwrap(), ft.ite(gt, ht), "ite".to_string())
+            } else if rng.chance(1, 8) {
+                (f.not().unwrap(), ft.not(), "not".to_string())
+            } else {
+                let op = *rng.pick(&ALL_BOPS);
+                (apply_bop(op, f, g), ft.bop(op, gt), op.name().to_string())
+            };
+            let rt = interp_tt::<K>(&r);
+            ctx.eval();
+            if rt != want {
+                ctx.violation(
+                    &format!("{k}:{what}:wrong-table"),
+                    format!("random n={n} order {order:?} threads {threads} split depth {depth}: {what}({ft}, {gt}, {ht}) = {rt} want {want}"),
+                );
+            } else if !want.is_const() {
+                ctx.distinct((k, &what, &want, threads, depth));
+            }
+            // cofactors of the result
+            let mc = model_cofactors(K::SEM, &want, &order);
+            match (mc, r.cofactors()) {
+                (None, None) => {}
+                (Some((_, t1, t0)), Some((c1, c0))) => {
+                    ctx.eval();
+                    let (a, b) = (interp_tt::<K>(&c1), interp_tt::<K>(&c0));
+                    if a != t1 || b != t0 {
+                        ctx.violation(&format!("{k}:cofactors"), format!("random n={n} order {order:?}: f={want}: got ({a},{b}) want ({t1},{t0})"));
+                    }
+                }
+                _ => ctx.violation(&format!("{k}:cofactors:none-iff-terminal"), format!("random n={n} order {order:?} f={want}")),
+            }
+        }
+    }
+}
+
+/// random operands over 4..8 variables, threads 1..8, every split depth, cache 1..4096 entries
+pub fn random(ctx: &mut Ctx) {
+    let mut rng = ctx.rng(0xC02);
+    let cases = ctx.by_tier(30, 400);
+    random_kind::<Bdd>(ctx, &mut rng, cases);
+    random_kind::<Bcdd>(ctx, &mut rng, cases);
+    random_kind::<Zbdd>(ctx, &mut rng, cases);
+    ctx.sample(|| "random: n in 4..8, random order, threads in {1,2,4,8}, split depth in {0,1,2,MAX}, apply cache 1..4096: 40 operations per manager over 8 random functions".into());
+}
